@@ -102,6 +102,8 @@ class Adapter:
         out = [{"i": {"kind": "construct"}, "o": {"ok": 1}}]
         if callable(steps):
             steps = []
+        if not steps:
+            return out
         fields = walk(cfg["tree"], reg.f)
         e = reg.element
         ins, outs = {}, {"r_data": e.r_data} if e.access.readable() else {}
@@ -175,6 +177,27 @@ class Adapter:
 
     def nontrivial(self, s):
         return s["i"].get("kind") == "construct" or bool(s["i"].get("r_stb") or s["i"].get("w_stb"))
+
+    def extra(self, run, tier):
+        """The configurations of the model family that must be REFUSED have no transitions to tour:
+        their construction step is executed on the real csr.Register all the same (three ways)."""
+        import json
+        from . import tlc, tracecheck
+        res = tlc.run("CsrReg_MC", MC.format(export="TRUE"), workers=4, timeout=900)
+        tlc.require_ok(res, "CsrReg_MC export (refused configurations)")
+        traces = []
+        for c in res.edges("CFG"):
+            if not c.get("refused"):
+                continue
+            for how in ("arg", "annot", "subclass"):
+                cfg = dict(c["cfg"], how=how)
+                traces.append({"cfg": cfg, "steps": self.run_history(cfg, [])})
+        fails = tracecheck.validate(self.module, self.prefix, traces, run, "construction of the configurations that must be refused")
+        hwcheck.report_failures(run, self, traces, fails, "refusal")
+        for t in traces:
+            run.count(1)
+            run.distinct(("refused", json.dumps(t["cfg"], sort_keys=True)))
+        run.cov["refused_configurations_constructed"] = len(traces)
 
 
 RULE = ("leg A: TLC explores CsrReg_MC (single field, dicts, lists, list of dicts inside a dict, zero-width "
